@@ -186,7 +186,7 @@ def step(case, rng, mole, t: Table, ops_log):
     op = choices[int(rng.integers(0, len(choices)))]
     if op == "sample" and N == 0:
         op = "head"
-    if op == "cutby" and ("g" not in t.columns or N == 0 or any(r["feats"]["g"] is None for r in t.rows)):
+    if op == "cutby" and ("g" not in t.columns or N == 0):
         op = "tail"
     if op in ("filter", "sort", "group_by") and not ({"a", "k", "b"} & set(t.columns)):
         op = "head"
@@ -471,7 +471,10 @@ def step(case, rng, mole, t: Table, ops_log):
         seen = []
         for edges, sub in mole.cutby("g", bins):
             lo, hi = edges
-            rows = [r for r in t.rows if lo < r["feats"]["g"] <= hi]
+            if lo != lo:      # NaN edges: the molecules whose cut feature is null
+                rows = [r for r in t.rows if r["feats"]["g"] is None]
+            else:
+                rows = [r for r in t.rows if r["feats"]["g"] is not None and lo < r["feats"]["g"] <= hi]
             compare(case, sub, Table(rows, t.columns), f"cutby ({lo},{hi}]")
             seen += [r["uid"] for r in rows]
         case.check(sorted(seen) == sorted(r["uid"] for r in t.rows) and len(set(seen)) == len(seen),
